@@ -31,6 +31,7 @@ import (
 	"path/filepath"
 	"regexp"
 	"sort"
+	"strconv"
 	"strings"
 
 	"k8s.io/gengo/types"
@@ -236,7 +237,12 @@ func (b *Builder) addFile(pkgPath importPathString, path string, src []byte, use
 		b.importGraph[pkgPath] = map[string]struct{}{}
 	}
 	for _, im := range p.Imports {
-		importedPath := strings.Trim(im.Path.Value, `"`)
+		// The path is a string literal, interpreted ("a/b", "a/\x62") or
+		// raw (`a/b`).
+		importedPath, err := strconv.Unquote(im.Path.Value)
+		if err != nil {
+			return fmt.Errorf("import path %s: %v", im.Path.Value, err)
+		}
 		b.importGraph[pkgPath][importedPath] = struct{}{}
 	}
 	return nil
